@@ -65,7 +65,11 @@ func (x *FnExec) call(fr *frame, n *node, in ssa.Instruction, c *ssa.CallCommon,
 	if key == "dynamic" {
 		calleeRef = x.scalar(x.value(fr, env, c.Value))
 	}
-	x.ghostUpdates(fr, n, key, ord, "before", args, Val{}, reach, calleeRef)
+	gargs := args
+	if !c.IsInvoke() && c.Signature().Recv() != nil && len(args) > 0 {
+		gargs = args[1:] // arg0.. are the declared parameters, as in guards
+	}
+	x.ghostUpdates(fr, n, key, ord, "before", gargs, Val{}, reach, calleeRef)
 
 	var res Val
 	var err error
@@ -106,7 +110,7 @@ func (x *FnExec) call(fr *frame, n *node, in ssa.Instruction, c *ssa.CallCommon,
 	if err != nil {
 		return Val{}, err
 	}
-	x.ghostUpdates(fr, n, key, ord, "after", args, res, reach, calleeRef)
+	x.ghostUpdates(fr, n, key, ord, "after", gargs, res, reach, calleeRef)
 	return res, nil
 }
 
